@@ -399,7 +399,7 @@ impl<const N: usize> ZEx<N> {
                             self.stats.forgets += 1;
                             let obs = b.len();
                             self.len[x] = obs;
-                            let live = CREATED.with(|c| c.get()) - DESTROYED.with(|c| c.get()) - self.leaked;
+                            let live = CREATED.with(|c| c.get()).saturating_sub(DESTROYED.with(|c| c.get()) + self.leaked);
                             let claimed = (self.len[0] + self.len[1] + self.hand.len()) as u64 + if x == 0 { 0 } else { 0 };
                             let other = self.len[1 - x] as u64;
                             let _ = other;
@@ -593,7 +593,7 @@ impl<const N: usize> ZEx<N> {
         if self.fail.is_none() {
             let (c, d) = (CREATED.with(|c| c.get()), DESTROYED.with(|c| c.get()));
             let live = (self.len[0] + self.len[1] + self.hand.len()) as u64;
-            if c - d - self.leaked != live {
+            if c != d + self.leaked + live {
                 let own = match st.op {
                     Op::FromArray | Op::CloneTo | Op::CloneFrom | Op::IntoIter | Op::ToVec => cls::CTOR,
                     Op::Drain => cls::DRAIN,
